@@ -37,7 +37,7 @@ enum Item {
     BadText(String),
 }
 
-const SETUP: &str = "(define c07-a 0) (define c07-b '()) (define (c07-deep n thunk) (if (= n 0) (thunk) (+ 1 (c07-deep (- n 1) thunk))))";
+const SETUP: &str = "(define c07-a 0) (define c07-b '()) (define (c07-deep n thunk) (if (= n 0) (thunk) (+ 1 (c07-deep (- n 1) thunk)))) (define c07-k #f) (define (c07-cap n) (if (= n 0) (call/cc (lambda (c) (set! c07-k c) 0)) (+ 1 (c07-cap (- n 1)))))";
 
 const FAIL_KINDS: [(&str, &str); 7] = [
     ("unbound-variable", "c07-undefined-variable"),
@@ -57,6 +57,9 @@ fn gen_items(bytes: &[u8]) -> (Vec<Item>, Option<usize>) {
     // half of the sessions are driven the way the wasm front end drives the VM:
     // prepare_eval + run_count(budget) until done
     let slice = if c.flip() { Some(*c.pick(&[1usize, 7, 40, 100, 1000][..])) } else { None };
+    // a continuation captured under `d` pending calls before the failures and re-entered
+    // after each of them (the saved stack of a deep one is longer than a fresh VM stack)
+    let deep_k = if c.chance(128) { Some(*c.pick(&[10usize, 60, 100, 300][..])) } else { None };
     let nfail = 1 + c.below(4);
     // decide the injected failures first (so that shrinking the tail shrinks the program)
     let mut fails: Vec<Item> = vec![];
@@ -104,6 +107,11 @@ fn gen_items(bytes: &[u8]) -> (Vec<Item>, Option<usize>) {
     };
     let mut items: Vec<Item> = read_all(SETUP).unwrap().into_iter().map(Item::Plain).collect();
     let probe = read("(list c07-a c07-b)").unwrap();
+    let reenter = read("(c07-k 5)").unwrap();
+    if let Some(d) = deep_k {
+        items.push(Item::Plain(read(&format!("(c07-cap {})", d)).unwrap()));
+        items.push(Item::Plain(reenter.clone()));
+    }
     let n = sess.forms.len();
     for (i, f) in sess.forms.iter().enumerate() {
         for (fi, p) in positions.iter().enumerate() {
@@ -112,6 +120,9 @@ fn gen_items(bytes: &[u8]) -> (Vec<Item>, Option<usize>) {
                     items.push(fails[fi].clone());
                 }
                 items.push(Item::Plain(probe.clone()));
+                if deep_k.is_some() {
+                    items.push(Item::Plain(reenter.clone()));
+                }
             }
         }
         items.push(Item::Plain(f.clone()));
@@ -122,6 +133,9 @@ fn gen_items(bytes: &[u8]) -> (Vec<Item>, Option<usize>) {
         }
     }
     items.push(Item::Plain(probe));
+    if deep_k.is_some() {
+        items.push(Item::Plain(reenter));
+    }
     (items, slice)
 }
 
@@ -314,6 +328,11 @@ fn check(ctx: &Ctx, items: &[Item], slice: Option<usize>) -> Outcome {
         let nfail = items.iter().filter(|i| !matches!(i, Item::Plain(_))).count();
         ctx.class_n("injected-failures", nfail as u64);
         for it in items {
+            if let Item::Plain(f) = it {
+                if let Some(d) = f.to_string().strip_prefix("(c07-cap ") {
+                    ctx.class(&format!("continuation-captured-{}-calls-deep-re-entered-after-each-failure", d.trim_end_matches(')')));
+                }
+            }
             if let Item::Failing { kind, depth, in_callcc, .. } = it {
                 ctx.class(&format!("kind:{}", kind));
                 ctx.class(&format!("depth:{}", depth));
@@ -395,7 +414,7 @@ impl Prop for C07 {
         "C07"
     }
     fn rule(&self) -> &'static str {
-        "generated sessions (C01/C05 generator) with 1-4 injected failing forms (7 run-time error kinds at call depth 0/1/3/20/100/200, inside or outside a call/cc receiver, after 0-2 completed effects; bad-syntax forms; unbalanced texts; one of them repeated up to 12 times) and witness probes after each; plus a ladder of k consecutive failures, k in {1,2,10,100,1000} x depth x kind. Non-trivial: a failing form is followed by a succeeding form that is compared with the reference, or by another failing form; distinct by session text."
+        "generated sessions (C01/C05 generator) with 1-4 injected failing forms (7 run-time error kinds at call depth 0/1/3/20/100/200, inside or outside a call/cc receiver, after 0-2 completed effects; bad-syntax forms; unbalanced texts; one of them repeated up to 12 times) and witness probes after each; in half of the sessions a continuation captured under 10/60/100/300 pending calls before the failures is re-entered after each of them; plus a ladder of k consecutive failures, k in {1,2,10,100,1000} x depth x kind. Non-trivial: a failing form is followed by a succeeding form that is compared with the reference, or by another failing form; distinct by session text."
     }
     fn assumptions(&self) -> Vec<&'static str> {
         vec![
